@@ -21,13 +21,13 @@ META = {
     'C03': ('other', 'linear-ownership typestate of flow items over node process paths + counter pairing',
             'Every item obtained by a node process is transferred exactly once on every path; counters are paired with the transfer they count. '
             'Does not decide the liveness half.', 'DESIGN.md §4 C03'),
-    'C04': ('other', 'ast path summaries: potential-based wake-up pairing (rise of free space / available items must be followed by the matching trigger)',
+    'C04': ('other', 'ast path summaries: potential-based wake-up pairing (rise of free space / available items must be followed by the matching trigger); must-reach rule on the trigger functions (every completing path reaches the service loop unless the path conditions imply an empty queue)',
             'Every net rise of free-unreserved space or available-unreserved items inside an atomic segment is followed by the matching trigger call; '
             'service-loop shape; grant predicate equivalent to availability; every accepted put of a time-gated store arms its own re-trigger timer. Decides the pairing, not timer-driven gates.', 'DESIGN.md §4 C04'),
-    'C05': ('proof', 'ast shape rules: append + stable ascending sort on the request own priority (or bisect_right insertion), head-first service, order-preserving removals',
+    'C05': ('proof', 'ast shape rules: append + stable ascending sort on the request own priority (or bisect_right insertion), head-first service, order-preserving removals; a request served without queueing is accepted only when the path conditions imply an empty queue',
             'With list.sort stability the rules imply priority-then-FCFS service for the reservation queues and the priority request store.',
             'DESIGN.md §4 C05'),
-    'C06': ('other', 'binder / cancellation index algebra (linear normal forms), data dependence of the bound item on the filter match, cancel-all-but-chosen typestate in nodes',
+    'C06': ('other', 'binder / cancellation index algebra (linear normal forms), data dependence of the bound item on the filter match, cancel-all-but-chosen typestate in nodes, selection predicate of the chosen token, constructor wiring of the buffer mode',
             'Necessary conditions of FIFO/LIFO/filter discipline: the binder picks the first (last) unreserved item, a cancellation re-inserts right after '
             '(below) the reserved block, the filter store binds the matched item, nodes cancel every token except the first triggered.', 'DESIGN.md §4 C06'),
     'C07': ('proof', 'ast path summaries: validation dominates mutation; failure paths are effect-free and raise RuntimeError; success consumes the token',
@@ -41,19 +41,19 @@ META = {
     'C10': ('other', 'reservation-token typestate (used xor cancelled), cancel-loop completeness (guard, iterable not edited, result test not inverted), suspension-point whitelist',
             'Every reservation token created by a node is used or cancelled exactly once on every path; no stray timed waits in pull/push regions. '
             'The instant-by-instant observer is not decided.', 'DESIGN.md §4 C10'),
-    'C11': ('other', 'linear normal-form equivalence of can_put/can_get/occupancy with the store predicates; dominance of ready-list append by the item own delay timer',
+    'C11': ('other', 'linear normal-form equivalence of can_put/can_get/occupancy with the store predicates; dominance of ready-list append by the item own delay timer; non-length conjuncts of the grant compared with what the query tests; path rule on get_delay (one fresh draw per call)',
             'can_put ≡ grant predicate, can_get ≡ |RG| < |A|, occupancy ≡ Σ held, ready append dominated by the timer of that item, delay drawn once.',
             'DESIGN.md §4 C11'),
-    'C12': ('other', 'control / data dependence of the belt put-grant on the entry time of the last entered item and the pace of the belt (dependence closure of opaque values); normalised product form of the travel delay; symbolic sum of the timed waits on undisturbed paths',
+    'C12': ('other', 'control / data dependence of the belt put-grant on the entry time of the last entered item and the pace of the belt (dependence closure of opaque values); normalised product form of the travel delay; symbolic sum of the timed waits on undisturbed paths; grant count per sweep of the belt queue (grant function inlined, two iterations); constructor wiring of speed / slot delay',
             'ONLY the structural clauses of C12: the spacing gate exists and refers to the last entered item (and an empty belt admits one entry per instant), the travel '
             'delay follows the documented formula, is stamped, stored with the item, identical for all items and waited in two phases that add up to it. '
             'Order of exit, actual spacing and travel times under interrupts are real-valued timer arithmetic and are NOT decided (see DESIGN.md §6).',
             'DESIGN.md §4 C12, §6'),
-    'C13': ('other', 'wait-without-signal scan; path rule with a symbolic clock: after an Interrupt the next travel wait lasts d − (t1 − t0) and follows a resume wait; truth-table check of the state dispatch; value/atom based accumulation gate; who-may-interrupt; sibling agreement of the stall-delay conversion',
+    'C13': ('other', 'wait-without-signal scan; path rule with a symbolic clock: after an Interrupt the next travel wait lasts d − (t1 − t0) and follows a resume wait; truth-table check of the state dispatch; value/atom based accumulation gate; who-may-interrupt; sibling agreement of the stall-delay conversion; must-reach rule on the cancellation sweep of delayed interrupts; stale-event read; constructor wiring of the accumulating flag',
             'Structural necessary conditions of stall handling; kinematics are not decided.', 'DESIGN.md §4 C13'),
-    'C14': ('other', 'control dependence of the capacity trigger, activation wait-set shape, two transit timeouts dominate the move, alias analysis of the batch iterable, batch fixed before the transit waits, exactly one suspension per activation cycle',
+    'C14': ('other', 'control dependence of the capacity trigger, activation wait-set shape, two transit timeouts dominate the move, alias analysis of the batch iterable, batch fixed before the transit waits, exactly one suspension per activation cycle, constructor wiring edge → store (arguments bound against the store signature and resolved through single-valued attributes / locals)',
             'Structural necessary conditions of batch delivery; batch boundaries in time are not decided.', 'DESIGN.md §4 C14'),
-    'C15': ('other', 'selector-call counting per path, who-may-consult scan of the user policy, recorded-vs-used index data flow, range-check dominance, generator update normal form, wiring of policy names',
+    'C15': ('other', 'selector-call counting per path, who-may-consult scan of the user policy, recorded-vs-used index data flow, range-check dominance, generator update normal form, wiring of policy names, value evaluation of the stored policy for representative arguments, fresh selector object per get_edge_selector call',
             'Selector consulted once per item, recorded index = used index, range check dominates use, round-robin successor is (i+1) mod n.',
             'DESIGN.md §4 C15'),
     'C16': ('other', 'loop-bound flow recipe → reservations, counted drain loop invariant, pallet-last emission order, path rule over the pallet container operations',
@@ -72,6 +72,15 @@ NOTE = ('All rules run on the package after a semantics-preserving normalisation
         'the fsa engine itself (firing/silent variants in the thorough tier). Static analysis only: nothing in a check imports or runs FactorySimPy.')
 
 NA = {}
+
+
+def borrowed(prop):
+    from fsa import support
+    rows = support.SUPPORT.get(prop, [])
+    if not rows:
+        return ''
+    return '; supporting clauses decided by other rule modules on the same parse and reported under this id (fsa/support.py, DESIGN §4): ' + \
+        ', '.join(f'{"/".join(rules)}' + (f' [{", ".join(where)}]' if where else '') for _home, rules, where, _why in rows)
 
 
 def implemented(prop):
@@ -95,7 +104,7 @@ def main():
             'engine': 'fsa',
             'level_claimed': {'category': level, 'text': text, 'design_ref': ref},
             'level_note': NOTE,
-            'technique': technique,
+            'technique': technique + borrowed(prop),
         })
     man = {
         'version': 1,
